@@ -27,14 +27,29 @@ pub struct Case {
     /// how many of the needed replies stdin provides before EOF (None = all)
     pub eof_after: Option<usize>,
     pub final_newline: bool,
+    /// non-zero: lines carry blanks in front of the line number / behind the text (derived per line from
+    /// this value)
+    #[serde(default)]
+    pub layout_seed: u64,
 }
 
 fn file_text(c: &Case) -> (String, Vec<String>) {
     let order = entry_order(c.prog.lines.len(), c.prog.order_seed);
-    let lines: Vec<String> = order.iter().map(|i| print_line(&c.prog.lines[*i])).collect();
-    let mut text = lines.join("\n");
+    let mut lines: Vec<String> = order.iter().map(|i| print_line(&c.prog.lines[*i])).collect();
+    let eol = "\n";
+    if c.layout_seed != 0 {
+        for (i, l) in lines.iter_mut().enumerate() {
+            let h = crate::prng::fnv(format!("{}:{}", c.layout_seed, i).as_bytes());
+            let lead = ["", "", " ", "  ", "\t", "    "][(h % 6) as usize];
+            // (no blanks behind a line that ends in REM / DATA text or an open string: they would be text)
+            let plain_end = !l.contains("REM") && !l.contains("DATA") && l.matches('"').count() % 2 == 0;
+            let trail = if plain_end { ["", "", " ", "  "][((h >> 8) % 4) as usize] } else { "" };
+            *l = format!("{lead}{l}{trail}");
+        }
+    }
+    let mut text = lines.join(eol);
     if c.final_newline {
-        text.push('\n');
+        text.push_str(eol);
     }
     (text, lines)
 }
@@ -318,6 +333,7 @@ impl Prop for C15 {
             binary,
             eof_after: if rng.chance(1, 3) { Some(rng.usize(2)) } else { None },
             final_newline: rng.chance(1, 2),
+            layout_seed: if rng.chance(1, 4) { rng.next() | 2 } else { 0 },
         }
     }
 
